@@ -2,9 +2,14 @@ package checks
 
 import (
 	"context"
+	"crypto"
+	"crypto/elliptic"
+	"crypto/rsa"
+	"crypto/x509"
 	"encoding/hex"
 	"fmt"
 	"io"
+	"math/big"
 	"net"
 	"reflect"
 	"strings"
@@ -362,7 +367,7 @@ func runC12(c *vlib.Check) {
 	c.Rule = fmt.Sprintf("every fluent call (%d executors of the 27 operations, Request, Batch+Unwrap, BatchExec with and without each batch error continuation option, a three-operation Then chain, the Signer flow, and the dial-time version discovery) x every crafted response of the product "+
 		"header batch count {0,1,2} x items {0,1,2} x item operation {same, another implemented, unregistered, absent} x status {Success, Failed, Pending, Undone, 7} x reason {absent, 3 named, unnamed} x "+
 		"payload {absent, right type, another operation's type, opaque} x message {empty, text} (%d responses per call). Responses are produced by the independent generator and decoded by the library before being handed to the client "+
-		"through a stub installed as innermost middleware; for every 5th call the same responses also travel over an in-memory connection through the client's own receive path, many per connection, and for every 5th call through a client configured with the library's own middlewares (correlation value, timeout, debug in XML and JSON). distinct = distinct (call, response) pairs", len(calls)-7, len(specs))
+		"through a stub installed as innermost middleware; for every 5th call the same responses also travel over an in-memory connection through the client's own receive path, many per connection; the crypto.Signer flow end to end (3 announced algorithms x 5 public key objects, consistent or not, x every Sign response); and for every 5th call through a client configured with the library's own middlewares (correlation value, timeout, debug in XML and JSON). distinct = distinct (call, response) pairs", len(calls)-7, len(specs))
 	c.Assumptions = []string{"'carries status, reason and message': the error text contains the registered name (or the number, for unregistered values) of the status and of the reason when present, and the message text",
 		"the carrying clause is only judged when counts match (header count = items = requested items)"}
 	// per-item call: every pair of item specs (reduced alphabet), so that a violating item can follow a failed one
@@ -453,6 +458,7 @@ func runC12(c *vlib.Check) {
 		}
 	})
 	c.Extra["responses_through_library_middlewares"] = len(mpairs)
+	c12Signer(c, specs[:mixedStart])
 	// dial-time discovery
 	for si := range specs[:mixedStart] {
 		spec := specs[si]
@@ -618,4 +624,112 @@ func c12Judge(c *vlib.Check, call c12call, spec respSpec, run func() ([]kmip.Ope
 			c.Violation("error-does-not-carry:"+strings.Join(missing, "+")+":"+named, fmt.Sprintf("%s: error %q does not carry the server's %s", label, short(txt, 200), strings.Join(missing, ", ")), rep)
 		}
 	}
+}
+
+// c12Signer: the crypto.Signer flow end to end. The scripted server describes the key pair through GetAttributes
+// (algorithm X in {RSA, EC, ECDSA}) and hands out a public key of kind Y in {RSA, EC P-256, EC P-521, a symmetric key, a
+// public key object without material} - consistent or not - and then answers the Sign request with every response of the
+// product. Signer() and Sign() return a value or an error; they never panic.
+func c12Signer(c *vlib.Check, specs []respSpec) {
+	rk := rsaKey(1024, 0xC0, 0xFF, 65537)
+	ek := ecKey(elliptic.P256(), big.NewInt(0x7F))
+	ek5 := ecKey(elliptic.P521(), big.NewInt(0x80))
+	pkix := func(k any) []byte {
+		b, err := x509.MarshalPKIXPublicKey(k)
+		if err != nil {
+			panic(err)
+		}
+		return b
+	}
+	pubObj := func(alg kmip.CryptographicAlgorithm, der []byte) kmip.Object {
+		return &kmip.PublicKey{KeyBlock: kmip.KeyBlock{KeyFormatType: kmip.KeyFormatTypeX_509, CryptographicAlgorithm: alg, CryptographicLength: 256,
+			KeyValue: &kmip.KeyValue{Plain: &kmip.PlainKeyValue{KeyMaterial: kmip.KeyMaterial{Bytes: &der}}}}}
+	}
+	sym := make([]byte, 16)
+	keys := []struct {
+		name string
+		ot   kmip.ObjectType
+		obj  kmip.Object
+	}{
+		{"rsa-public", kmip.ObjectTypePublicKey, pubObj(kmip.CryptographicAlgorithmRSA, pkix(&rk.PublicKey))},
+		{"ec-p256-public", kmip.ObjectTypePublicKey, pubObj(kmip.CryptographicAlgorithmEC, pkix(&ek.PublicKey))},
+		{"ec-p521-public", kmip.ObjectTypePublicKey, pubObj(kmip.CryptographicAlgorithmEC, pkix(&ek5.PublicKey))},
+		{"symmetric-key", kmip.ObjectTypeSymmetricKey, &kmip.SymmetricKey{KeyBlock: kmip.KeyBlock{KeyFormatType: kmip.KeyFormatTypeRaw, CryptographicAlgorithm: kmip.CryptographicAlgorithmAES, CryptographicLength: 128,
+			KeyValue: &kmip.KeyValue{Plain: &kmip.PlainKeyValue{KeyMaterial: kmip.KeyMaterial{Bytes: &sym}}}}}},
+		{"public-key-without-material", kmip.ObjectTypePublicKey, &kmip.PublicKey{KeyBlock: kmip.KeyBlock{KeyFormatType: kmip.KeyFormatTypeX_509}}},
+	}
+	algs := []kmip.CryptographicAlgorithm{kmip.CryptographicAlgorithmRSA, kmip.CryptographicAlgorithmEC, kmip.CryptographicAlgorithmECDSA}
+	type cfg struct{ ai, ki int }
+	var cfgs []cfg
+	for ai := range algs {
+		for ki := range keys {
+			cfgs = append(cfgs, cfg{ai, ki})
+		}
+	}
+	var n int64
+	vlib.Parallel(len(cfgs), 0, func(i int) {
+		alg, key := algs[cfgs[i].ai], keys[cfgs[i].ki]
+		var cur atomic.Pointer[respSpec]
+		stub := func(next kmipclient.Next, ctx context.Context, req *kmip.RequestMessage) (*kmip.ResponseMessage, error) {
+			ok := func(op kmip.Operation, pl kmip.OperationPayload) (*kmip.ResponseMessage, error) {
+				return &kmip.ResponseMessage{Header: kmip.ResponseHeader{ProtocolVersion: kmip.V1_4, BatchCount: 1}, BatchItem: []kmip.ResponseBatchItem{{Operation: op, ResponsePayload: pl}}}, nil
+			}
+			switch p := req.BatchItem[0].RequestPayload.(type) {
+			case *payloads.GetAttributesRequestPayload:
+				ot, link, lt, um := kmip.ObjectTypePrivateKey, "pub", kmip.LinkTypePublicKeyLink, kmip.CryptographicUsageSign
+				if p.UniqueIdentifier == "pub" {
+					ot, link, lt, um = kmip.ObjectTypePublicKey, "priv", kmip.LinkTypePrivateKeyLink, kmip.CryptographicUsageVerify
+				}
+				return ok(kmip.OperationGetAttributes, &payloads.GetAttributesResponsePayload{UniqueIdentifier: p.UniqueIdentifier, Attribute: []kmip.Attribute{
+					{AttributeName: kmip.AttributeNameObjectType, AttributeValue: ot},
+					{AttributeName: kmip.AttributeNameCryptographicAlgorithm, AttributeValue: alg},
+					{AttributeName: kmip.AttributeNameLink, AttributeValue: kmip.Link{LinkType: lt, LinkedObjectIdentifier: link}},
+					{AttributeName: kmip.AttributeNameCryptographicUsageMask, AttributeValue: um},
+				}})
+			case *payloads.GetRequestPayload:
+				return ok(kmip.OperationGet, &payloads.GetResponsePayload{ObjectType: key.ot, UniqueIdentifier: p.UniqueIdentifier, Object: key.obj})
+			case *payloads.SignRequestPayload:
+				raw := craft(*cur.Load(), []kmip.Operation{kmip.OperationSign})
+				resp := &kmip.ResponseMessage{}
+				if err := ttlv.UnmarshalTTLV(raw, resp); err != nil {
+					return nil, fmt.Errorf("undecodable response: %w", err)
+				}
+				return resp, nil
+			}
+			return nil, fmt.Errorf("unexpected request")
+		}
+		dialer := func(ctx context.Context) (net.Conn, error) { a, _ := net.Pipe(); return a, nil }
+		cl, err := kmipclient.DialContext(context.Background(), "stub", kmipclient.WithDialerUnsafe(dialer), kmipclient.EnforceVersion(kmip.V1_4), kmipclient.WithMiddlewares(stub))
+		if err != nil {
+			c.Violation("machinery:dial", err.Error(), nil)
+			return
+		}
+		defer cl.Close()
+		label := fmt.Sprintf("Signer: attributes say %s, the public key object is %s", ttlv.EnumStr(alg), key.name)
+		rep := map[string]any{"kind": "signer", "case": label}
+		var signer crypto.Signer
+		var serr error
+		if pv, site := vlib.Catch(func() { signer, serr = cl.Signer(context.Background(), "priv", "pub") }); pv != nil {
+			c.Violation("panic:Signer:"+site, fmt.Sprintf("%s: building the signer panicked: %v", label, pv), rep)
+			return
+		}
+		c.Eval([]byte(label), true)
+		if serr != nil || signer == nil {
+			return
+		}
+		digest := make([]byte, 32)
+		for si := range specs {
+			spec := specs[si]
+			cur.Store(&spec)
+			atomic.AddInt64(&n, 1)
+			for _, opts := range []crypto.SignerOpts{crypto.SHA256, &rsa.PSSOptions{SaltLength: rsa.PSSSaltLengthEqualsHash, Hash: crypto.SHA256}} {
+				if pv, site := vlib.Catch(func() { _, _ = signer.Sign(nil, digest, opts) }); pv != nil {
+					c.Violation("panic:Signer.Sign:"+site, fmt.Sprintf("%s; Sign <- %s: panic %v", label, spec.String(), pv), rep)
+					return
+				}
+			}
+		}
+	})
+	c.Mu(func() { c.Evaluations += n; c.DistinctN += n })
+	c.Extra["signer_sign_responses"] = n
 }
